@@ -30,7 +30,7 @@ def run(tier, prop="C04"):
     for tag, (events, bad) in results:
         total += len(events)
         for e in events:
-            if e["e"] in ("ptrload", "ptrstore"):
+            if e["e"] in ("ptrload", "ptrloadrun", "ptrstore"):
                 combos.add((tag, e["e"], e["pos"], e["cls"]))
         for b, ev in bad:
             chk.violation("[%s] pointer position outside the %s Contract: %s" % (tag, prop, mc.pretty(ev)), mc.pretty(ev))
